@@ -109,6 +109,9 @@ struct PointFn
     std::vector<std::size_t>* channel_count = nullptr;
 
     T operator()(hep::mc_point<T> const& p) const { return (*f)(p.point()); }
+    // the variants with a projector go through the accumulator specialisation for integrands with distributions
+    T operator()(hep::mc_point<T> const& p, hep::projector<T>& proj) const { T const v = (*f)(p.point()); proj.add(0, p.point()[0], v); return v; }
+    T operator()(hep::multi_channel_point<T> const& p, hep::projector<T>& proj) const { T const v = (*this)(p); proj.add(0, p.coordinates()[0], v); return v; }
     T operator()(hep::multi_channel_point<T> const& p) const
     {
         T const v = (*f)(p.coordinates());
@@ -201,9 +204,11 @@ void run_plain(vf::Ctx& c)
     }
     vf::script_engine eng(script);
     PointFn<T> fn{&f};
-    auto ig = hep::make_integrand<T>(fn, dims);
-    auto const res = hep::plain_iteration(ig, N, eng);
-    c.desc << vf::type_name<T>::get() << " PLAIN d=" << dims << " lattice=" << M << "^" << dims << ' ' << f.describe();
+    bool const with_dist = t.flag();
+    hep::plain_result<T> const res = with_dist ? hep::plain_iteration(hep::make_integrand<T>(fn, dims, hep::make_dist_params<T>(3, T(0), T(1), "c01")), N, eng)
+                                               : hep::plain_iteration(hep::make_integrand<T>(fn, dims), N, eng);
+    if (with_dist) { c.label("with-distribution"); }
+    c.desc << vf::type_name<T>::get() << (with_dist ? " +dist" : "") << " PLAIN d=" << dims << " lattice=" << M << "^" << dims << ' ' << f.describe();
     long double const expect = f.integral(std::vector<long double>(dims, 0.0L), std::vector<long double>(dims, 1.0L));
     judge<T>(c, res.value(), expect, 64 * vf::eps<T>() * dims * f.magnitude(), "C01:plain-biased", "PLAIN on a midpoint lattice");
     c.sub += N;
@@ -242,18 +247,22 @@ void run_vegas(vf::Ctx& c)
     }
     vf::script_engine eng(script);
     PointFn<T> fn{&f};
-    auto ig = hep::make_integrand<T>(fn, dims);
     bool const e2e = t.flag();
+    bool const with_dist = t.flag();
     T value;
-    if (e2e)
-    {
-        // through the public driver: the checkpoint hands the user grid to the first iteration
-        auto chk = hep::make_vegas_chkpt<T, vf::script_engine>(pdf, T(1.5), eng);
-        auto const out = hep::vegas(ig, std::vector<std::size_t>{N}, chk, [](decltype(chk) const&) { return true; });
-        value = out.results().at(0).value();
-    }
-    else { value = hep::vegas_iteration(ig, N, pdf, eng).value(); }
-    c.desc << vf::type_name<T>::get() << " VEGAS d=" << dims << " bins=" << bins << " m=" << m << " grid=" << how << (e2e ? " via hep::vegas" : " via vegas_iteration") << ' ' << f.describe();
+    auto run_with = [&](auto&& ig) {
+        if (e2e)
+        {
+            // through the public driver: the checkpoint hands the user grid to the first iteration
+            auto chk = hep::make_vegas_chkpt<T, vf::script_engine>(pdf, T(1.5), eng);
+            auto const out = hep::vegas(ig, std::vector<std::size_t>{N}, chk, [](decltype(chk) const&) { return true; });
+            value = out.results().at(0).value();
+        }
+        else { value = hep::vegas_iteration(ig, N, pdf, eng).value(); }
+    };
+    if (with_dist) { run_with(hep::make_integrand<T>(fn, dims, hep::make_dist_params<T>(4, T(0), T(1), "c01"))); c.label("with-distribution"); }
+    else { run_with(hep::make_integrand<T>(fn, dims)); }
+    c.desc << vf::type_name<T>::get() << (with_dist ? " +dist" : "") << " VEGAS d=" << dims << " bins=" << bins << " m=" << m << " grid=" << how << (e2e ? " via hep::vegas" : " via vegas_iteration") << ' ' << f.describe();
     long double const expect = f.integral(std::vector<long double>(dims, 0.0L), std::vector<long double>(dims, 1.0L));
     judge<T>(c, value, expect, 64 * vf::eps<T>() * dims * f.magnitude(), "C01:vegas-biased", "VEGAS on a midpoint lattice, grid " + how);
     c.sub += N;
@@ -385,10 +394,15 @@ void run_multi(vf::Ctx& c)
     std::vector<std::size_t> ccount(channels, 0);
     PointFn<T> fn{&f, &csum, &ccount};
     vf::PwcMap<T> map{&fam, nullptr, nullptr};
-    hep::multi_channel_integrand<T, PointFn<T>, vf::PwcMap<T>, false> ig(fn, dims, map, fam.map_dims, channels, std::vector<hep::distribution_parameters<T>>());
     vf::script_engine eng(script);
-    auto const res = hep::multi_channel_iteration(ig, N, w, eng);
-    c.desc << vf::type_name<T>::get() << " MULTI " << fam.describe() << " m=" << m << " weights(" << how << ")=" << vf::show(w) << (e2e ? " E2E" : " point-level") << ' ' << f.describe();
+    bool const with_dist = t.flag();
+    std::vector<hep::distribution_parameters<T>> params;
+    if (with_dist) { params.push_back(hep::make_dist_params<T>(4, T(0), T(1), "c01")); c.label("with-distribution"); }
+    hep::multi_channel_integrand<T, PointFn<T>, vf::PwcMap<T>, false> ig_plain(fn, dims, map, fam.map_dims, channels, params);
+    hep::multi_channel_integrand<T, PointFn<T>, vf::PwcMap<T>, true> ig_dist(fn, dims, map, fam.map_dims, channels, params);
+    hep::plain_result<T> const res = with_dist ? static_cast<hep::plain_result<T>>(hep::multi_channel_iteration(ig_dist, N, w, eng))
+                                               : static_cast<hep::plain_result<T>>(hep::multi_channel_iteration(ig_plain, N, w, eng));
+    c.desc << vf::type_name<T>::get() << (with_dist ? " +dist" : "") << " MULTI " << fam.describe() << " m=" << m << " weights(" << how << ")=" << vf::show(w) << (e2e ? " E2E" : " point-level") << ' ' << f.describe();
 
     // the integral over the cells covered by an enabled channel
     long double expect = 0;
